@@ -176,7 +176,13 @@ def forced_distribution(rng, branch):
 def rand_weights_total(rng):
     """-> (style, weights, total) with weights x total <= 1e15"""
     k = rng.randint(1, 10)
-    style = rng.choice(["float", "int", "equal", "skew", "dyadic", "tenths"])
+    style = rng.choice(["float", "int", "equal", "skew", "dyadic", "tenths", "int_exact_big"])
+    if style == "int_exact_big":
+        # large INTEGER weights whose proportional shares are exact integers (total = c * sum): the products
+        # weight * total exceed 2**63 although every share stays far below 2**53, so the answer is exactly c * w_i
+        vs = [rng.randint(10 ** 9, 10 ** 10) for _ in range(max(2, k))]
+        c = rng.choice([1, 1, 2, 3])
+        return style, vs, c * sum(vs)
     if style == "float":
         vs = [rng.random() + 1e-3 for _ in range(k)]
     elif style == "int":
